@@ -69,11 +69,12 @@ class Site:
 
 class AV:
     """abstract value"""
-    __slots__ = ("o", "item", "key", "elems", "lead", "trail", "note")
+    __slots__ = ("o", "item", "key", "elems", "lead", "trail", "note", "xs")
 
-    def __init__(self, o, item=None, key=None, elems=None, lead=(), trail=(), note=""):
+    def __init__(self, o, item=None, key=None, elems=None, lead=(), trail=(), note="", xs=False):
         self.o, self.item, self.key, self.elems = o, item, key, elems
         self.lead, self.trail, self.note = tuple(lead), tuple(trail), note
+        self.xs = xs          # the value is exactly a `str` (built by an f-string / + / join / repr)
 
     def __repr__(self):
         return f"AV({self.o}{' item=' + repr(self.item) if self.item else ''}{' elems=' + repr(self.elems) if self.elems else ''})"
@@ -112,21 +113,21 @@ def lub(a: AV | None, b: AV | None) -> AV | None:
             o = m.o
     return AV(o, item=lub(a.item, b.item), key=lub(a.key, b.key), elems=elems,
               lead=tuple(dict.fromkeys(a.lead + b.lead)), trail=tuple(dict.fromkeys(a.trail + b.trail)),
-              note=(a.note if _ORD[a.o] >= _ORD[b.o] else b.note) or a.note or b.note)
+              note=(a.note if _ORD[a.o] >= _ORD[b.o] else b.note) or a.note or b.note, xs=a.xs and b.xs)
 
 
 def flat(a: AV | None) -> AV:
     """the value as a whole (tuple positions / items collapsed): used when structure is lost"""
     if a is None:
         return unk("no value")
-    m = AV(a.o, lead=a.lead, trail=a.trail, note=a.note)
+    m = AV(a.o, lead=a.lead, trail=a.trail, note=a.note, xs=a.xs)
     for x in (a.elems or []):
         m = lub(m, flat(x))
     if a.item is not None:
         m = lub(m, flat(a.item))
     if a.key is not None:
         m = lub(m, flat(a.key))
-    return AV(m.o, lead=m.lead, trail=m.trail, note=m.note)
+    return AV(m.o, lead=m.lead, trail=m.trail, note=m.note, xs=m.xs)
 
 
 # ---------------------------------------------------------------------------
@@ -421,6 +422,8 @@ class Scanner:
                     self.code_exprs.setdefault(expr + "!" + conv, av_f.note)
                 else:
                     s = self.site(en, expr + "!" + conv, "KRepr" if conv == "r" else "KAscii", av_f.note or av_f.o)
+                    if av_f.xs and s.types == ["TAny"]:
+                        s.types = ["TStr"]     # text built by an f-string / concatenation: exactly str
                     if before:
                         s.befores.add(before)
                     else:
@@ -476,7 +479,7 @@ class Scanner:
                 self.counts[UNK] += 1
                 res_o = max(res_o, UNK, key=_ORD.get)
             before += "\x02"
-        return AV(res_o, lead=lead, trail=trail, note="built text")
+        return AV(res_o, lead=lead, trail=trail, note="built text", xs=True)
 
     def ev_Attribute(self, n, env):
         txt = ast.unparse(n)
